@@ -211,12 +211,21 @@ theorem parse_write_roundtrip (os : Str) (f : Str) :
 one-line name that is not blank, not a marker and not `===…`; no attribute text; no line of the input
 or of the expectation starting with `===`/`---`; input not ending in CR) and every admissible
 suffix, the reader applied to the written file returns exactly one entry per correction, in order,
-with the same name, attribute text and input: nothing merges, splits or is dropped.
+with the same name, attribute text, input and delimiter lengths: nothing merges, splits or is dropped.
 Missing w.r.t. the full statement: attribute text, multi-line names (OPEN), and delimiter-like
 lines inside inputs/expectations (FALSE there, witness below). -/
 theorem parse_write_roundtrip_partial (os suf : Str) (hse : SufOK '=' suf) (hsd : SufOK '-' suf)
-    (cs : List Correction) (h : ∀ c ∈ cs, Simple c) : RoundTrips os suf cs :=
+    (cs : List Correction) (h : ∀ c ∈ cs, Simple c) :
+    (parseFile os (writeTests suf cs)).map Entry.dkey = cs.map Correction.dkey :=
   roundtrip_simple os suf hse hsd cs h
+
+/-- The same without the delimiter lengths, in the form used by `update_preserves_partial`. -/
+theorem roundTrips_simple (os suf : Str) (hse : SufOK '=' suf) (hsd : SufOK '-' suf)
+    (cs : List Correction) (h : ∀ c ∈ cs, Simple c) : RoundTrips os suf cs := by
+  have := congrArg (List.map fun k : Str × Str × Str × Nat × Nat => (k.1, k.2.1, k.2.2.1))
+    (parse_write_roundtrip_partial os suf hse hsd cs h)
+  simp only [List.map_map, Function.comp_def, Entry.dkey, Correction.dkey] at this
+  exact this
 
 /-- `update_preserves_simple` (unchanged code, no round-trip hypothesis): if every test of the file is run
 exactly once and the corrections the run produces are `Simple`, then after the update the file
@@ -228,7 +237,7 @@ theorem update_preserves_simple (os : Str) (orc : Oracle) (f : Str) (cs : List C
     (hs : ∀ c ∈ cs, Simple c) :
     (parseFile os (updateFile {} os orc f)).map Entry.skey = (parseFile os f).map Entry.skey :=
   update_preserves_partial os orc f cs hne hp hrun
-    (parse_write_roundtrip_partial os [] ⟨by simp, by simp⟩ ⟨by simp, by simp⟩ cs hs)
+    (roundTrips_simple os [] ⟨by simp, by simp⟩ ⟨by simp, by simp⟩ cs hs)
 
 def cSimple : Correction :=
   { name := ['f', 'i', 'r', 's', 't'], input := ['a', ' ', '=', ' ', '1', ';', '\n', 'b', ';'],
